@@ -2,7 +2,7 @@ SPECIFICATION Spec
 CONSTANTS
   Stacks <- StacksTags
   Outcomes <- Out1
-  TagOps <- TagOps4
+  TagOps <- TagOps3
   Times = {"1", "2"}
   MaxCalls = 10
   MaxTests = 2
